@@ -241,6 +241,7 @@ def run_property(prop, tier, *, jobs=None, only=None, verbose=False,
     for ex in extras:
         if ex.get("fault"):
             faults.append(f"extra {ex['name']}: {ex['fault']}")
+        n_reported = 0
         for fl in ex.get("failures", []):
             key = f"{ex['name']}|{fl['key']}"
             kf = known_match(known, prop, key)
@@ -248,6 +249,16 @@ def run_property(prop, tier, *, jobs=None, only=None, verbose=False,
                 known_hits.append(dict(key=key, what=kf["what"]))
                 lines.append(f"KNOWN-FINDING: property={prop} {kf['what']} "
                              f"[{key}]")
+                continue
+            n_reported += 1
+            if n_reported > 6:
+                # many failures of one stand-in: report them in the evidence,
+                # replay only the first few
+                violations.append(dict(key=key, replay=None, reproduced=None,
+                                       info=fl.get("what")))
+                if n_reported == 7:
+                    lines.append(f"  (further failures of {ex['name']} are "
+                                 "listed in the evidence file only)")
                 continue
             d = os.path.join(VERIF, "replays", prop)
             os.makedirs(d, exist_ok=True)
